@@ -137,9 +137,9 @@ Record msginfo := {
   mi_body_ok : bool;             (* does the deferred body parse succeed when someone reads a block *)
   mi_sid : N;                    (* ["CircuitCode"][0]["SessionID"] as a 128-bit number (UseCircuitCode) *)
   mi_consumed : bool;            (* AddonManager.handle_lludp_message returns truthy although no addon is
-                                    loaded: ChatFromViewer on COMMAND_CHANNEL (a command for the proxy itself),
-                                    or a ChatFromSimulator OwnerSay starting with "@" whose RLV command list is
-                                    empty (no command was left unhandled, so the chat counts as handled) *)
+                                    loaded: ChatFromViewer on COMMAND_CHANNEL (a command for the proxy itself).
+                                    Before /repo commit 40d86e5 also a ChatFromSimulator OwnerSay "@" whose RLV
+                                    command list is empty; the harness asks the live AddonManager. *)
   mi_out : option (list N)       (* bytes circuit.send() emits for this message when the proxy has
                                     injected nothing on the circuit; None: prepare_message returned False *)
 }.
